@@ -11,7 +11,7 @@ RULE = ('random (pipe, data, model) decompositions with pipe*data*model ≤ 12, 
         'compared with the unsharded float64 reference; data-parallel replicas / model-parallel peers compared with '
         'each other; every rank\'s issued collectives (kind, members, element count, root) are compared exactly, in order, '
         'with the projection of the global script of the Lean model KV.NeoxS; the trace matcher checks matching collectives; clipping: pipe=model=1 must match the reference, '
-        'model>1 or pipe>1 with active clipping is known finding F1; non-trivial = model-parallel degree > 1')
+        'model>1 or pipe>1 with active clipping is known finding F1; damping schedules (callable of the step) that change between inverse updates (intervals 2, 3); non-trivial = model-parallel degree > 1')
 TRUSTED = [
     'Lean 4.33 kernel; axioms audited ⊆ {propext, Classical.choice, Quot.sound}',
     'hand-written model KV.NeoxLayer (gather/split/scatter along the sharded dimension, factor shapes, reduction groups) '
@@ -215,6 +215,11 @@ def run(ctx):
     corpus.append(neoxsim.NCfg(rng, pp=1, dp=2, mp=1, blocks=2, kl=Fraction(1, 10**4), ops=['f1', 's', 'f1', 's'], cap_mb=0.0))
     # dp×mp with 3-d activations, row bias (non-contiguous bias slice path)
     corpus.append(neoxsim.NCfg(rng, pp=1, dp=2, mp=2, blocks=1, bias_row=True, bias_col=True, lead=(2,), ops=['f1', 's', 'f1', 's']))
+    # damping schedule that changes between inverse updates (inv_update_steps = 2, 3): the damping in force at each step counts
+    for ius, mp in ((2, 2), (3, 1), (3, 2)):
+        corpus.append(neoxsim.NCfg(rng, pp=1, dp=2, mp=mp, blocks=1, fus=1, ius=ius, prediv=False, accum=1,
+                                   damping=[Fraction(1, 4), Fraction(1, 16), Fraction(1, 2), Fraction(1, 8)],
+                                   ops=['f1', 's'] * 4, cap_mb=0.0))
     n = ctx.budget(40, 400)
     for i in range(n):
         cfg = corpus[i] if i < len(corpus) else gen(ctx, rng)
